@@ -4878,7 +4878,9 @@ fn process_relocation<'data, 'scope, A: Arch<Platform = Elf>, R: Relocation>(
         {
             if section_is_writable {
                 // Odd offsets mean bitmaps in RELR, so we need to fall back to RELA for them.
-                if resources.symbol_db.args.is_relr_enabled() && rel.offset().is_multiple_of(2) {
+                if resources.symbol_db.args.is_relr_enabled()
+                    && relr_eligible(rel.offset(), section.sh_addralign(LittleEndian))
+                {
                     common.allocate(part_id::RELR_DYN, elf::RELR_ENTRY_SIZE);
                 } else {
                     common.allocate(part_id::RELA_DYN_RELATIVE, elf::RELA_ENTRY_SIZE);
@@ -4943,6 +4945,16 @@ fn process_relocation<'data, 'scope, A: Arch<Platform = Elf>, R: Relocation>(
         }
     }
     Ok(next_modifier)
+}
+
+/// Whether a relative relocation for a field at `offset_in_section` of an input section with the
+/// supplied alignment may be stored in `.relr.dyn`. RELR can only describe even addresses. The
+/// address isn't known when sizes are computed, so both the layout and the writer use this
+/// criterion, which implies an even address: even offset in a section that is at least 2-aligned.
+pub(crate) fn relr_eligible(offset_in_section: u64, section_alignment: u64) -> bool {
+    offset_in_section.is_multiple_of(2)
+        && section_alignment >= 2
+        && section_alignment.is_multiple_of(2)
 }
 
 /// Returns whether the supplied relocation type requires static TLS. If true and we're writing a
